@@ -183,12 +183,12 @@ Mutate(st, T, a, p) == LET r == Read(st, T, a, p)        \* read the value, then
                           ELSE [r.st EXCEPT !.mut = @ \cup {<<r.obj, T>>}]
 ImportM(st, m) == IF m = "fasta" /\ "neut" \in Groups THEN Read(st, "pub", "eD", "nt").st ELSE st
 CalcProps(c) == CASE c = "neutron_sld" -> <<"nt">> [] c = "atom_sld" -> <<"nt">> [] c = "xray_sld" -> <<"xr">>
-                  [] c = "f0" -> <<"xr">> [] c = "volume" -> <<"cr">> [] c = "activation" -> <<"na">>
+                  [] c = "f0" -> <<"xr">> [] c = "volume" -> <<"cr">> [] c = "activation" -> <<"na">> [] c = "activation_iaea" -> <<"na">>
                   [] c = "d2o_match" -> <<"nt">> [] c = "list" -> <<"ka", "cr">> [] c = "composite" -> <<"nt">>
                   [] c = "magff" -> <<"mf">> [] c = "emission_table" -> <<"ka">>
 RECURSIVE ReadAll(_, _, _)
 ReadAll(st, a, ps) == IF ps = <<>> THEN st ELSE ReadAll(Read(st, "pub", a, Head(ps)).st, a, Tail(ps))
-Calc(st, c) == ReadAll(st, IF c = "activation" THEN "iD" ELSE "eD", CalcProps(c))
+Calc(st, c) == ReadAll(st, IF c \in {"activation", "activation_iaea"} THEN "iD" ELSE "eD", CalcProps(c))
 CalcOK(c) == \A i \in DOMAIN CalcProps(c) : GroupOf(CalcProps(c)[i]) \in Groups
 
 Apply(st, ev) ==
@@ -215,7 +215,7 @@ ActiveProps == UNION {ReadProps(g) : g \in Groups}
 AssignProps == ActiveProps \ {"xr", "na", "mf"}          \* user overrides of scalar / record data
 MutProps == ActiveProps \cap Mutable
 Live(st) == {"pub"} \cup st.tabs
-Calcs == {"neutron_sld", "atom_sld", "xray_sld", "f0", "volume", "activation", "d2o_match", "list",
+Calcs == {"neutron_sld", "atom_sld", "xray_sld", "f0", "volume", "activation", "activation_iaea", "d2o_match", "list",
           "composite", "magff", "emission_table"}
 Imports == {"nsf", "xsf", "covalent_radius", "crystal_structure", "magnetic_ff", "activation", "fasta",
             "formulas", "cromermann"}
